@@ -122,7 +122,9 @@ def _serialize_region_fits(region):
         if param in ('center', 'vertices'):
             x, y = value.xy
         elif param == 'angle':
-            rotang = value
+            # the FITS region ROTANG column is in degrees (and FITS cannot
+            # store some angular units, e.g. hourangle)
+            rotang = value.to(u.deg)
         else:
             # ellipse region is defined by full axis lengths, but
             # FITS regions file uses semi-axis lengths
